@@ -5,4 +5,7 @@ cd "$here" || exit 2
 mkdir -p .scratch replays evidence
 /venv/bin/python tools/translate.py "${BIOCANTOR_REPO:-/repo}" lean/BioCantor/Gen || exit 1
 /venv/bin/python tools/gen_root.py
-cd lean && lake build BioCantor
+cd lean && lake build BioCantor.Base BioCantor.Driver.Main || exit 1
+# every other module: build what builds (each check rebuilds and reports its own modules)
+lake build $(cat modules.txt) || echo "setup: some modules did not build (see above); the checks of those properties will report it"
+exit 0
